@@ -46,7 +46,7 @@ fn key_values() -> gen::VS {
 
 fn key_lists() -> BoxedStrategy<Vec<Value>> {
     // duplicates on purpose
-    (vec(key_values(), 0..=5), vec(any::<u16>(), 0..=3)).prop_map(|(mut keys, dups)| {
+    (vec(key_values(), 0..=5), prop_oneof![3 => Just(vec![]), 2 => vec(any::<u16>(), 1..=3)]).prop_map(|(mut keys, dups)| {
         for d in dups {
             if !keys.is_empty() {
                 let k = keys[gen::pick(d, keys.len())].clone();
